@@ -49,6 +49,8 @@ def constraint_items(tier):
       dict(sizes=[2, 2], mono=[1, 1], E=[[0, 1, 1]], T=[[0, 1, 1]], comp=None, lo=None, hi=0.5, iters=1),
       dict(sizes=[2, 2], mono=[1, 1], E=[], T=[], comp=("range_dominances", ((0, 1),)), lo=None, hi=None, iters=3),
       dict(sizes=[3], mono=[1], E=[], T=[], comp=None, lo=-0.5, hi=None, iters=1),
+      dict(sizes=[2, 2, 2], mono=[1, 0, 0], E=[[0, 1, 1]], T=[[0, 2, 1]], comp=None, lo=None, hi=None, iters=10),
+      dict(sizes=[2, 2, 2], mono=[1, 1, 1], E=[[0, 1, 1]], T=[[0, 1, 1]], comp=None, lo=-1.0, hi=1.0, iters=1),
       dict(sizes=[2, 3], mono=[1, 0], E=[[0, 1, 1]], T=[], comp=("unimodalities", (0, 1)), lo=-0.5, hi=0.75, iters=1),
   ]
   for c in lat:
@@ -103,6 +105,9 @@ def constraint_case(item, ctx=None):
   n, N = K.shape
   tol = 1e-5
   msgs = []
+  if K.shape[1] > 243:
+    K = K[:, :: K.shape[1] // 243 + 1]
+    N = K.shape[1]
   alone = np.concatenate([_apply(kind, cfg, K[:, c:c + 1]) for c in range(N)], axis=1)
   packed = _apply(kind, cfg, K)
   total = 2 * N
